@@ -83,6 +83,14 @@ PROPS = {
         level_text="Lean 4 theorems modulo the cryptographic primitives (PBKDF2-HMAC-SHA1, the AES block function and HMAC-SHA1 are uninterpreted parameters; only their output lengths are assumed): the little-endian CTR key stream is chunking independent, involutive and byte i is byte i%16 of AES_k(le128(i/16+1)); with the right password every caller-buffer and short-read schedule returns exactly ct xor key stream for every length; no password -> password-required, wrong verifier -> InvalidPassword, too-short entry -> InvalidData, early end of the inner stream -> UnexpectedEof; any successful end-of-file of the AES reader on a non-empty entry implies that HMAC(all ciphertext)[0..10] was compared with the stored code and matched and that exactly data_length bytes were consumed (no delivery hypothesis), and the same at the level of ZipFile::read for every inner method and ANY decoder behaviour (entry_eof_implies_mac, aes_tamper_detected_entry: finish_crypto drains the AES reader at the decoder's end-of-file); the finalized assertion and every arithmetic panic are unreachable; CRC flag = (vendor version is AE-2). The model is tied to the source by the regenerated AesMode lengths / constants / method table (Tie obligations) and by correspondence of AesReaderValid::read, AesCtrZipKeyStream, the 0x9901 extra-field parse and the open-time decisions on entries built by the harness's own AE-x encryptor",
         level_note="HMAC unforgeability, PBKDF2 and AES themselves are parameters (oracle tables in the correspondence); decoders (flate2, bzip2, zstd) are arbitrary strategies in the entry-level theorems, assumed only to end their read call with an error when the reader below returns one; inflate is a table in the correspondence; empty entries never compare their code (stated as aes_empty_entry_no_mac); D12 (code unchecked at an early decoder end-of-file) was found by this property, is fixed in /repo and is kept as regression cases plus the pre-fix model witness; translator and harness are trusted as stated in DESIGN.md section 7",
     ),
+    "C03": dict(
+        props=["ZipVerif.Props.C03"],
+        tie=[],
+        streams=["read", "spec"],
+        title="Well-formed archives from other producers are read faithfully",
+        level_text="Lean 4 theorems over EVERY layout of an independent APPNOTE producer (Spec.Zip.build: any number of entries, any prefix, gaps, every data-descriptor form, local headers disagreeing with the central ones, each of the 2^3 ZIP64 extended-information subsets per entry forced or needed, forced or needed ZIP64 end records, trailing bytes without ZIP64 records, foreign extra records, any host system/attributes/timestamps/flags): ZipArchive::new returns exactly the central directory's entries in order with the recorded values, offset() = prefix length, the comment (reader_on_wf); by_index_raw returns exactly the stored bytes from the data start computed out of the LOCAL header's lengths (reader_entry_raw); by_index returns the decoder's output gated by the central CRC, i.e. the original bytes for stored entries (reader_entry_read/_decoded/_stored); an unsupported method fails that entry only; lookup by name returns the last duplicate, absent names and out-of-range indices are FileNotFound; attributes map to the documented Unix mode. The reader model is tied to the source by correspondence (read stream: builder/writer/lying/truncated/random archives through the seekable and streaming readers); the format spec is tied to reality by the spec stream (Spec.Zip.build vs an independent Rust builder byte for byte; Spec.Zip.viewOf vs what the real crate reports; CPython zipfile on a sample)",
+        level_note="hypotheses kept explicit: Fits (every value fits its field; sizes below 2^63), Readable (central extra data are well-formed records without the ZIP64/AES identifiers, method is not 99 - AES is C16), NoFalseSig (names/comments/trailing bytes do not embed an end-record signature where the reader probes; decidable, with sufficient-condition lemmas and a concrete counterexample showing the reader does go wrong without it). Decoders are parameters (Ext.decode; stored = identity is a hypothesis of reader_entry_stored). The model is hand-written (no translation tie for I/O code): agreement with the crate rests on the read stream",
+    ),
 }
 
 ALLOWED_AXIOMS = {"propext", "Classical.choice", "Quot.sound"}
